@@ -11,7 +11,7 @@ import SphericalVerif.Model.Modes
           op <bin|inp> <add|sub|mul|div> <a> <b>   un <pos|neg|abs> <a>
           meth <add|subtract|multiply|divide> <Modes> <other> [trunc]
           meth <conjugate|conjugate_inplace|real|imag|norm> <Modes>
-          conjrow <method|inplace|ufunc> <s> <L>   terms <L1> <L2> <Lfg>          copy <route> <nested 0|1>
+          conjrow <method|inplace|ufunc> <s> <L>   terms|termlist <L1> <L2> <Lfg> copy <route|view|trunc> <nested 0|1> <s> <L>
     `none` = unknown op. -/
 namespace ModesOps
 open Model.Modes
@@ -140,9 +140,9 @@ def Tag.show : Tag → String
   | .zero => "z"
   | .at p n c => (if n then "-" else "+") ++ toString p ++ (if c then "*" else "")
 
-def heap0 (nested : Bool) : Heap × PyObj :=
+def heap0 (nested : Bool) (s L : Int) : Heap × PyObj :=
   ({ dicts := fun i => if i = 0 then
-        [("spin_weight", .int 1), ("ell_max", .int 2), ("multiplication_truncator", .fn "max")]
+        [("spin_weight", .int s), ("ell_max", .int L), ("multiplication_truncator", .fn "max")]
           ++ (if nested then [("note", .ref 0)] else [])
       else [],
      vals := fun i => if i = 0 then [7, 8] else [],
@@ -263,10 +263,20 @@ def step (toks : List String) : Option String :=
     let n := (Gen.Ysize 0 Lfg).toNat
     let counts := accumulate (· + ·) (fun _ => 1) ts (fun _ => (0 : Nat))
     pure (toString ts.length ++ " | " ++ String.intercalate " " ((List.range n).map fun p => toString (counts p)))
-  | ["copy", route, nested] => do
-    let r ← parseRoute route
-    let (h, o) := heap0 (nested == "1")
-    let (h', c) := copyRoute r h o
+  | ["termlist", L1, L2, Lfg] => do
+    let L1 ← L1.toInt?
+    let L2 ← L2.toInt?
+    let Lfg ← Lfg.toInt?
+    pure (String.intercalate " " ((terms L1 L2 Lfg).map fun t =>
+      s!"{t.1},{t.2.1},{t.2.2.1},{t.2.2.2.1},{t.2.2.2.2}"))
+  | ["copy", route, nested, s, L] => do
+    let s ← s.toInt?
+    let L ← L.toInt?
+    let (h, o) := heap0 (nested == "1") s L
+    let (h', c) ← match route with
+      | "view" => some (viewObj h o)
+      | "trunc" => some (truncateObj h o (L - 1))
+      | _ => (parseRoute route).map fun r => copyRoute r h o
     let cls := match c.cls with
       | .modes => "Modes"
       | .ndarray => "ndarray"
@@ -274,7 +284,8 @@ def step (toks : List String) : Option String :=
     let nestedShared := match h'.lookup c.dict "note", h'.lookup o.dict "note" with
       | some a, some b => if a = b then "shared" else "fresh"
       | _, _ => "none"
-    pure s!"cls={cls} sharesdata={if c.buf = o.buf then 1 else 0} samedict={if c.dict = o.dict then 1 else 0} nested={nestedShared} {String.intercalate ";" keys}"
+    let okeys := (h'.dicts o.dict).map fun e => e.1 ++ "=" ++ showVal h' e.2
+    pure s!"cls={cls} sharesdata={if c.buf = o.buf then 1 else 0} samedict={if c.dict = o.dict then 1 else 0} nested={nestedShared} {String.intercalate ";" keys} orig={String.intercalate ";" okeys}"
   | _ => none
 
 end ModesOps
